@@ -30,16 +30,16 @@ def mixed_program(rng, cpu=None, nstat=None):
     a macro, a REPT, an IF, a section, a SET/EQU and a function"""
     cpu = cpu or rng.choice(CPUS)
     bop, wop, rop, nop, _ = CPU_TABLE[cpu]
-    L = ['\tcpu\t%s' % cpu, '\torg\t$%x' % rng.choice([0, 0x100, 0x1000, 0x8000])]
+    L = ['\tcpu\t%s' % cpu, '\torg\t%d' % rng.choice([0, 0x100, 0x1000, 0x8000])]
     nstat = nstat or rng.randrange(8, 40)
     labels = ['lab%d' % i for i in range(rng.randrange(2, 8))]
     placed = []
     L.append('cnt\tset\t0')
     L.append('konst\tequ\t%d' % rng.randrange(1, 200))
     L.append('twice\tfunction x,x*2')
-    L.append('emit\tmacro\ta,b')
-    L.append('\t%s\ta,b' % bop)
-    L.append('\t%s\ta+b' % wop)
+    L.append('emit\tmacro\tpqa,pqb')
+    L.append('\t%s\tpqa,pqb' % bop)
+    L.append('\t%s\tpqa+pqb' % wop)
     L.append('\tendm')
     pending = list(labels)
     for i in range(nstat):
@@ -72,7 +72,7 @@ def mixed_program(rng, cpu=None, nstat=None):
         elif k == 8:
             s = 'sec%d' % i
             L.append('\tsection\t%s' % s)
-            L.append('loc:\t%s\tloc&$ff' % bop)
+            L.append('loc:\t%s\tloc&255' % bop)
             L.append('\tendsection\t%s' % s)
         elif k == 9:
             L.append('\t%s\ttwice(%d)' % (wop, rng.randrange(1000)))
